@@ -29,6 +29,15 @@ def jobs(tier):
                 continue
             J.append(dict(id='scalar_%s_%s' % (name, skn), harness='h_scalar', props=['C06', 'C08'], unwind=22, defs=dict(FMT=f, SK=sk), timeout=300, mem_gb=4,
                           desc='%s encoder visit_%s: the bytes are exactly one well-formed item that an independent reference decoder reads back to the same value (or the encoder refuses)' % (name, skn), bound='all 2^64 values' if sk in (7, 8) else 'all values'))
-    J.append(dict(id='cjson_seq', harness='h_cjson_seq', props=['C08', 'C01'], unwind=26, defs=dict(FMT=0), timeout=600, mem_gb=6,
-                  desc='compact JSON encoder on [v0,v1] and {"ab":v}: output text equals the independent RFC 8259 rendering (separators, brackets, literals, integers)', bound='v in null/bool/uint<1000/|int|<1000/2-char printable string'))
+    EK = {9: 'null', 10: 'bool', 7: 'uint', 8: 'int', 11: 'string'}
+    for k0, n0 in EK.items():
+        for k1, n1 in EK.items():
+            if tier != 'thorough' and 'string' in (n0, n1):
+                continue   # string values go through escape_string + UTF-8 validation: 2-5 min per job, thorough tier (escaping itself is decided by text/escape_n*)
+            J.append(dict(id='cjson_arr_%s_%s' % (n0, n1), harness='h_cjson_seq', props=['C08', 'C01'], unwind=26, defs=dict(FMT=0, EK0=k0, EK1=k1, SEQOBJ=0, KSEQ='k_cj_arr_%s_%s' % ((n0, n1) if list(EK).index(k0) <= list(EK).index(k1) else (n1, n0))), timeout=1500 if 'string' in (n0, n1) else 300, mem_gb=6,
+                          desc='compact JSON encoder on [%s,%s]: output text equals the independent RFC 8259 rendering (separators, brackets, literals, integers)' % (n0, n1), bound='uint<1000, |int|<1000, 2-char printable strings'))
+        if tier != 'thorough':
+            continue   # member names go through escape_string too
+        J.append(dict(id='cjson_obj_%s' % n0, harness='h_cjson_seq', props=['C08', 'C01'], unwind=26, defs=dict(FMT=0, EK0=9, EK1=k0, SEQOBJ=1, KSEQ='k_cj_obj_%s' % n0), timeout=1500, mem_gb=6,
+                      desc='compact JSON encoder on {"ab":%s}: output text equals the independent RFC 8259 rendering' % n0, bound='2-char printable key; uint<1000, |int|<1000, 2-char printable strings'))
     return J
